@@ -865,7 +865,7 @@ func (s *ImmuStore) getIndexerFor(keyPrefix []byte) (*indexer, error) {
 	s.indexersMux.RLock()
 	defer s.indexersMux.RUnlock()
 
-	for _, indexer := range s.indexers {
+	for _, indexer := range s.orderedIndexers(s.indexers) {
 		if hasPrefix(keyPrefix, indexer.TargetPrefix()) {
 			return indexer, nil
 		}
@@ -1361,7 +1361,7 @@ func (s *ImmuStore) WaitForIndexingUpto(ctx context.Context, txID uint64) error 
 		s.waiteesMutex.Unlock()
 	}()
 
-	for _, indexer := range s.indexers {
+	for _, indexer := range s.orderedIndexers(s.indexers) {
 		err := indexer.WaitForIndexingUpto(ctx, txID)
 		if err != nil {
 			return err
@@ -1381,7 +1381,7 @@ func (s *ImmuStore) CompactIndexes() error {
 
 	// TODO: indexes may be concurrently compacted
 
-	for _, indexer := range s.indexers {
+	for _, indexer := range s.orderedIndexers(s.indexers) {
 		err := indexer.CompactIndex()
 		if err != nil {
 			return err
@@ -1397,7 +1397,7 @@ func (s *ImmuStore) FlushIndexes(cleanupPercentage float32, synced bool) error {
 
 	// TODO: indexes may be concurrently flushed
 
-	for _, indexer := range s.indexers {
+	for _, indexer := range s.orderedIndexers(s.indexers) {
 		err := indexer.FlushIndex(cleanupPercentage, synced)
 		if err != nil {
 			return err
@@ -2409,7 +2409,7 @@ func (s *ImmuStore) preCommitWith(ctx context.Context, callback func(txID uint64
 	s.indexersMux.RLock()
 	defer s.indexersMux.RUnlock()
 
-	for _, indexer := range s.indexers {
+	for _, indexer := range s.orderedIndexers(s.indexers) {
 		indexer.Pause()
 		defer indexer.Resume()
 	}
@@ -2436,7 +2436,7 @@ func (s *ImmuStore) preCommitWith(ctx context.Context, callback func(txID uint64
 	}
 
 	if otx.hasPreconditions() {
-		for _, indexer := range s.indexers {
+		for _, indexer := range s.orderedIndexers(s.indexers) {
 			indexer.Resume()
 		}
 
@@ -2451,7 +2451,7 @@ func (s *ImmuStore) preCommitWith(ctx context.Context, callback func(txID uint64
 			return nil, err
 		}
 
-		for _, indexer := range s.indexers {
+		for _, indexer := range s.orderedIndexers(s.indexers) {
 			indexer.Pause()
 		}
 	}
@@ -3651,7 +3651,7 @@ func (s *ImmuStore) Close() error {
 
 	merr := multierr.NewMultiErr()
 
-	for _, indexer := range s.indexers {
+	for _, indexer := range s.orderedIndexers(s.indexers) {
 		err := indexer.Close()
 		merr.Append(err)
 	}
